@@ -22,13 +22,19 @@ def run_impl(binp, inputs):
     lines = [V.hexs(x) for x in inputs]
     res = []
     i = 0
+    hangs = 0
     while i < len(lines):
+        if hangs >= 6:
+            # each hanging input costs the watchdog's 8 s: six of them are reported, the rest of the batch is not run
+            res += ["SKIPPED"] * (len(lines) - len(res))
+            break
         rc, out, err = V.run_lines([binp], lines[i:], timeout=3600)
         res += out
         i = len(res)
         if rc == 0:
             break
         if rc == 3:          # watchdog fired on the last printed line
+            hangs += 1
             continue
         # hard crash (e.g. stack overflow, fatal error): attribute it to the next input
         if i < len(lines):
